@@ -1,0 +1,81 @@
+//go:build verif
+
+/*
+ * Licensed to the Apache Software Foundation (ASF) under one or more
+ * contributor license agreements.  See the NOTICE file distributed with
+ * this work for additional information regarding copyright ownership.
+ * The ASF licenses this file to You under the Apache License, Version 2.0
+ * (the "License"); you may not use this file except in compliance with
+ * the License.  You may obtain a copy of the License at
+ *
+ *     http://www.apache.org/licenses/LICENSE-2.0
+ *
+ * Unless required by applicable law or agreed to in writing, software
+ * distributed under the License is distributed on an "AS IS" BASIS,
+ * WITHOUT WARRANTIES OR CONDITIONS OF ANY KIND, either express or implied.
+ * See the License for the specific language governing permissions and
+ * limitations under the License.
+ */
+
+package base
+
+// Verification contracts (comment-only, tag verif) for the branch rollback (C10, and the result
+// truthfulness / order / log-deletion clauses of C01). database/sql is the environment: its assumed
+// contracts are in /verif/spec/ext_sql.gvs (every call may fail; ghost utx = state of the rollback
+// transaction, conns_out / stmts_open / rows_open = resources not yet released, step_failed = some
+// statement-level step returned an error).
+
+// Steps of the undo that are verified elsewhere or abstract here: each may fail.
+//@ ghost var undo_steps int
+//@ ghost var marker_inserts int
+//@ ghost var log_deletes int
+//@ ghost var executors_run int
+
+//@ func (*BaseUndoLogManager).decodeUndoLogCtx
+//@   trusted
+//@   ensures true
+//@ func (*BaseUndoLogManager).getRollbackInfo
+//@   trusted
+//@   modifies ghost.step_failed
+//@   ensures ghost.step_failed == (old(ghost.step_failed) || result1 != nil)
+//@ func (*BaseUndoLogManager).deserializeBranchUndoLog
+//@   trusted
+//@   modifies ghost.step_failed
+//@   ensures ghost.step_failed == (old(ghost.step_failed) || result1 != nil)
+//@   ensures result1 == nil ==> result0 != nil
+//@ iface (undo.UndoExecutor).ExecuteOn
+//@   modifies ghost.step_failed, ghost.executors_run, ghost.execs
+//@   ensures ghost.executors_run == old(ghost.executors_run) + 1 && ghost.step_failed == (old(ghost.step_failed) || result != nil) && ghost.execs >= old(ghost.execs)
+
+//@ func (*BaseUndoLogManager).DeleteUndoLog
+//@   prop C10
+//@   requires conn != nil
+//@   modifies ghost.step_failed, ghost.execs, ghost.stmts_open, ghost.log_deletes
+//@   ensures propagates: ghost.step_failed == (old(ghost.step_failed) || result != nil)
+//@   ensures releases-stmt: ghost.stmts_open == old(ghost.stmts_open)
+
+//@ func (*BaseUndoLogManager).InsertUndoLogWithSqlConn
+//@   prop C10
+//@   requires conn != nil
+//@   modifies ghost.step_failed, ghost.execs, ghost.stmts_open
+//@   ensures propagates: ghost.step_failed == (old(ghost.step_failed) || result != nil)
+//@   ensures releases-stmt: ghost.stmts_open == old(ghost.stmts_open)
+
+//@ func (*BaseUndoLogManager).insertUndoLogWithGlobalFinished
+//@   prop C10
+//@   requires conn != nil
+//@   modifies ghost.step_failed, ghost.execs, ghost.stmts_open
+//@   ensures propagates: ghost.step_failed ==> old(ghost.step_failed) || result != nil
+//@   ensures releases-stmt: ghost.stmts_open == old(ghost.stmts_open)
+//@   at call InsertUndoLogWithSqlConn#1: assert marker-status: arg_record.LogStatus == UndoLogStatusGlobalFinished && arg_record.XID == xid && arg_record.BranchID == branchID && arg_conn == conn
+
+//@ func (*BaseUndoLogManager).Undo
+//@   prop C10 C01
+//@   requires db != nil && ghost.utx == 0 && !ghost.step_failed && ghost.execs == 0
+//@   ensures one-outcome: ghost.utx != 1
+//@   ensures truthful: result == nil ==> ghost.utx == 2 || (ghost.utx == 3 && ghost.execs == 0)
+//@   ensures failure-surfaces: ghost.step_failed ==> result != nil
+//@   ensures conn-released: ghost.conns_out == old(ghost.conns_out) && ghost.stmts_open == old(ghost.stmts_open) && ghost.rows_open == old(ghost.rows_open)
+//@   loop 1 invariant tx-open: ghost.utx == 1 && ghost.conns_out == old(ghost.conns_out) + 1 && conn != nil && tx != nil
+//@   loop 2 invariant tx-open: ghost.utx == 1 && ghost.conns_out == old(ghost.conns_out) + 1 && conn != nil && tx != nil
+//@   loop 3 invariant tx-open: ghost.utx == 1 && ghost.conns_out == old(ghost.conns_out) + 1 && conn != nil && tx != nil
